@@ -146,7 +146,10 @@ fn gen_program_impl(rng: &mut Rng, cfg: &GenCfg, single: bool) -> Prog {
             }
             "truncate" => {
                 let a = match pick_leaf(rng) { Some(a) => a, None => continue };
-                let scale: u128 = match rng.below(5) { 0 => 1, 1 => 2, 2 => 3, 3 => 1u128 << rng.below(20), _ => 1 + rng.below(1000) as u128 };
+                // powers of two stay within the documented range k <= w-2 of the secure protocol
+                let w = a.get_type().unwrap().get_scalar_type().size_in_bits();
+                let kmax = if w > 2 { std::cmp::min(w - 2, 20) } else { 1 };
+                let scale: u128 = match rng.below(5) { 0 => 1, 1 => 2, 2 => 3, 3 => 1u128 << (1 + rng.below(kmax)), _ => 1 + rng.below(1000) as u128 };
                 (vec![a], Operation::Truncate(scale))
             }
             "sum" => {
